@@ -761,6 +761,10 @@ func Try(ctx context.Context, args ...object.Object) object.Object {
 	for _, arg := range args {
 		result, err := try(arg)
 		if err != nil {
+			if ce := ctx.Err(); ce != nil {
+				// a cancelled evaluation is not something try() recovers from
+				return object.NewError(ce)
+			}
 			var tmpErr errz.Error
 			if errors.As(err, &tmpErr) && tmpErr.IsFatal() {
 				// This indicates an unrecoverable evaluation error
